@@ -82,8 +82,11 @@ def start_campaigns(ctx, mod):
         os.makedirs(corp)
         if i % 2 == 0:           # seeded; odd ones start from the empty corpus
             for k, s in enumerate(NATIVE_SEEDS):
+                # first byte = size selector of the output array (see the target)
                 with open(os.path.join(corp, 'seed%d' % k), 'w') as f:
-                    f.write(s)
+                    f.write('?' + s)
+                with open(os.path.join(corp, 'seedsmall%d' % k), 'w') as f:
+                    f.write(chr(2 + 3 * k) + s)
         art = os.path.join(tmp, 'nart-%d-' % i)
         cmd = [exe, '-max_total_time=%d' % tn, '-seed=%d' % (ctx.seed * 100 + i + 1), '-max_len=%d' % (48 if i % 2 else 200),
                '-print_final_stats=1', '-artifact_prefix=' + art, '-timeout=10', corp]
